@@ -443,17 +443,22 @@ func (db *ContractDB) parseLines(lines []srcLine, pkg *types.Package, trusted bo
 				db.errf("%s: functype outside package", src)
 				continue
 			}
-			obj := pkg.Scope().Lookup(rest)
-			if obj == nil {
+			var ftype types.Type
+			if obj := pkg.Scope().Lookup(rest); obj != nil {
+				ftype = obj.Type()
+			} else if tv, err := types.Eval(db.w.Fset, pkg, token.NoPos, rest); err == nil && tv.Type != nil {
+				ftype = tv.Type // an unnamed function type written out, e.g. func(int) interface{}
+			}
+			if ftype == nil {
 				db.errf("%s: no type %s", src, rest)
 				continue
 			}
-			sig, ok := obj.Type().Underlying().(*types.Signature)
+			sig, ok := ftype.Underlying().(*types.Signature)
 			if !ok {
 				db.errf("%s: %s is not a function type", src, rest)
 				continue
 			}
-			c := &Contract{Key: types.TypeString(obj.Type(), nil), Rel: "functype " + types.TypeString(obj.Type(), nil), Sig: sig,
+			c := &Contract{Key: types.TypeString(ftype, nil), Rel: "functype " + types.TypeString(ftype, nil), Sig: sig,
 				Lets: map[string]ast.Expr{}, Pkg: pkg, IsIface: true, Src: src}
 			for i := 0; i < sig.Params().Len(); i++ {
 				v := sig.Params().At(i)
